@@ -228,13 +228,16 @@ Key(t, a, c) == << IF "TagIgnored" \in Bug THEN "none" ELSE t,
                    IF "AddrIgnored" \in Bug THEN A0 ELSE a, c >>
 FileKey(t, a, c) == IF "FiledUnderEmptyTag" \in Bug THEN Key("none", a, c) ELSE Key(t, a, c)
 
-CliAlive(s) == s \in DOMAIN cli.sess /\ (Alive(cli.sess[s]) \/ "ExpiredStillRouted" \in Bug)
+\* parameterised by the cache and the clock so that generators can project the post-state
+CliAliveOf(cl, nw, s) == s \in DOMAIN cl.sess /\ (nw <= cl.sess[s].exp \/ "ExpiredStillRouted" \in Bug)
+RouteOf(cl, nw, t, a, c) ==
+  LET k == Key(t, a, c) IN
+  IF k \in DOMAIN cl.map /\ CliAliveOf(cl, nw, cl.map[k]) THEN cl.map[k] ELSE NoSid
+CliAlive(s) == CliAliveOf(cli, now, s)
 \* SessionCache.Lookup(id)
 CliLookup(s) == CliAlive(s)
 \* SessionCache.LookupByCommand(tag, addr, cmd): the session the next handshake would ride
-Route(t, a, c) ==
-  LET k == Key(t, a, c) IN
-  IF k \in DOMAIN cli.map /\ CliAlive(cli.map[k]) THEN cli.map[k] ELSE NoSid
+Route(t, a, c) == RouteOf(cli, now, t, a, c)
 
 MapWithout(m, s) == Keep(m, {k \in DOMAIN m : m[k] # s})
 Dropped(s) == [sess |-> Rm(cli.sess, s), map |-> MapWithout(cli.map, s)]
